@@ -121,6 +121,25 @@ static Built build(const gnet::Doc& d, const std::string& alg0, const std::vecto
   return b;
 }
 
+// The list of removed points is a LOG: it is kept in the order in which the adjustment rounds removed the points,
+// which is history by construction (a point removed after the first change, two more after the second, against all
+// three in one round of a fresh network).  The set is an answer, the order is not: runs of such lines are sorted.
+static std::string canon_removed_lists(const std::string& t)
+{
+  static const char* MARK[] = {"indeterminable coordinate", "missing coordiantes", "singular coordiante", "'left'>missing x", "'left'>missing z",
+                               "'left'>singular xy<", "'left'>singular z<", "'left'>huge cov "};
+  auto is_log = [&](const std::string& l) { for (auto m : MARK) if (l.find(m) != std::string::npos) return true; return false; };
+  std::vector<std::string> lines; size_t p = 0;
+  while (p <= t.size()) { size_t e = t.find('\n', p); if (e == std::string::npos) { lines.push_back(t.substr(p)); break; } lines.push_back(t.substr(p, e - p)); p = e + 1; }
+  for (size_t i = 0; i < lines.size();) {
+    if (!is_log(lines[i])) { i++; continue; }
+    size_t j = i; while (j < lines.size() && is_log(lines[j])) j++;
+    std::sort(lines.begin() + (long)i, lines.begin() + (long)j); i = j;
+  }
+  std::string o; for (size_t i = 0; i < lines.size(); i++) { if (i) o += "\n"; o += lines[i]; }
+  return o;
+}
+
 // ---- queries ------------------------------------------------------------------------
 static const char* QK[] = {
   "solve", "residuals", "trans_VWV", "m_0", "dof", "null_space", "unknowns_count", "observations_count", "qxx", "qbb",
@@ -182,7 +201,7 @@ static Val ask(LocalNetwork* n, const std::string& k, long long a, long long b, 
       else if (k == "doc:octave") { GNU_gama::LocalNetworkOctave x(n); x.write(o); }
       else if (k == "doc:svg") { GNU_gama::local::GamaLocalSVG s(n); s.draw(o); }
       else if (k == "doc:export") o << n->export_xml("");
-      r.text = o.str();
+      r.text = canon_removed_lists(o.str());
     }
   });
 }
@@ -223,7 +242,10 @@ Verdict execute(const Plan& plan, EventLog& log, Stats& st)
       st.state("hist", fmt("net/%s/asked%d", c.substr(0, 5).c_str(), std::min(O.asked, 2)));
     } else if (op == "chg") {
       int w = (int)(s.arg(1) % 6);
-      bool moved = false; for (auto& c0 : O.changes) if (c0 == "refine" || c0 == "refcoord") moved = true;
+      // (nor after a switch to another algorithm: the reference takes the observation out before its FIRST adjustment,
+      // which runs under the initial algorithm, and which points an adjustment removes as singular or indeterminable
+      // is decided numerically by the algorithm in force - after a switch the two orders are different inputs)
+      bool moved = false; for (auto& c0 : O.changes) if (c0 == "refine" || c0 == "refcoord" || (c0.compare(0, 4, "alg:") == 0 && c0.substr(4) != O.alg0)) moved = true;
       if (w == 5 && moved) { n++; continue; }
       std::string c = w == 5 ? fmt("passive:%lld", s.arg(2) % 1000) : w == 0 ? "refine" : w == 1 ? "refcoord" : w == 2 ? "alg:" + (O.changes.empty() ? O.alg0 : O.alg0) : w == 3 ? std::string("alg:") + ALGS[s.arg(2) % 4] : "alg:" + O.alg0;
       Val r = guarded([&](Val&) { apply_change(net, c); });
@@ -254,10 +276,12 @@ Verdict execute(const Plan& plan, EventLog& log, Stats& st)
       const std::string BADREG = fmt("matvec:%d", (int)GNU_gama::Exception::BadRegularization);
       if (ref.exc == BADREG || ref.exc == "not-adjustable") { st.add("undefined_quantity_skipped"); n++; continue; }
       std::string where;
-      if (!same_val(used, ref, where))
+      if (!same_val(used, ref, where)) {
+        if (const char* dd = getenv("VERIF_DUMP_DIR")) { sim::write_file(std::string(dd) + "/used.txt", used.is_text ? used.text : used.str()); sim::write_file(std::string(dd) + "/fresh.txt", ref.is_text ? ref.text : ref.str()); }   // debugging aid
         return Verdict::fail(fmt("C04:%s:net.%s:%s", used.exc != ref.exc ? "throw-differs" : "value-differs", k.c_str(), O.alg0.c_str()), n,
                              fmt("network %s (%s, changes %zu) answered %s = %s; a fresh network asked only that says %s (%s)",
                                  g_docs[O.doc].name.c_str(), O.alg0.c_str(), O.changes.size(), k.c_str(), used.str().c_str(), ref.str().c_str(), where.c_str()));
+      }
     }
     n++;
   }
